@@ -109,13 +109,16 @@ CLAIMED = {
             "vars() of every object (attribute-name sets, values, container contents) is snapshotted around every read-only call of every script, and a fault is swept over every invocation index of every "
             "callback (filterfunc, ff_via, ff_result, rfunc, sort, rvfunc, refunc, user_render_func), each followed by an unfaulted repeat that must give the baseline answer.",
             "PARTIAL for renderers / pickling (entry points without stores): frame by construction of the model + exhaustive fault sweep per call, not a theorem about the Python.", "DESIGN.md 3/C13"),
-    "C14": ("Lean 4 proof: structure of the PlantUML source (one declaration per member, relation lines = shown links one-for-one, orientation, nearest configured class); parse-back correspondence",
-            "Theorems C14_decl_once, C14_shown_links, C14_relations_exact, C14_internal_link_shown (with C01's symmetry), C14_orientation, C14_resolve_nearest, C14_empty over the structure model; "
+    "C14": ("Lean 4 proof: structure of the PlantUML source (one declaration per member, relation lines = shown links one-for-one, orientation, nearest configured class); decision tables regenerated from the real renderer on every run and re-proved equal to the model by kernel evaluation; parse-back correspondence",
+            "Regenerated on every run from the real render_to_plantuml_src (translation by exhaustive execution, 822 rows): the relation line of every link class x end placement (C14_rel_impl_eq_model, "
+            "C14_rel_impl_eq_spec) and WHICH configured class every vertex / link class resolves to under every set of configured classes (C14_resolveV_impl_eq_model, C14_resolveL_impl_eq_model: ties "
+            "the model's MRO lists to the real __mro__ walk), C14_tables_complete; all by decide +kernel. Theorems C14_decl_once, C14_shown_links, C14_relations_exact, C14_internal_link_shown (with C01's symmetry), C14_orientation, C14_resolve_nearest, C14_empty over the structure model; "
             "the real text is parsed back into declaration and relation records (titles tokenised) and compared with the model for 4 option tables incl. a configured subclass and an attribute-based title; "
             "an independent oracle recomputes declarations and the relation multiset from the real objects.",
             "The text layer (skinparams, note, attribute lines, joining) is outside the model; relation order is unspecified (Python set) and compared as a multiset.", "DESIGN.md 3/C14"),
-    "C15": ("Lean 4 proof: node list, soundness of every edge, one-to-one arrowed edges vs directed links, completeness incl. self-loops, over a model of pyvis' add_node/add_edge; correspondence on get_edges()/nodes",
-            "Theorems C15_nodes, C15_edges_sound (every edge is the drawing of a link attached to member src, oriented v1->v2, arrowed iff directed; indices are member positions, so nothing for outsiders), "
+    "C15": ("Lean 4 proof: node list, soundness of every edge, one-to-one arrowed edges vs directed links, completeness incl. self-loops, over a model of pyvis' add_node/add_edge; two-link decision table regenerated from the real make_pyvis_net on every run and re-proved equal to the model (and to the statement) by kernel evaluation; correspondence on get_edges()/nodes",
+            "Regenerated on every run (1296 rows: every pair of link classes x end placements among two members and an outsider): C15_impl_eq_model (real edge list = model edge list, same order, same arrows), "
+            "C15_impl_eq_spec (sound, one arrowed edge per directed link, complete), C15_table_complete, by decide +kernel. Theorems C15_nodes, C15_edges_sound (every edge is the drawing of a link attached to member src, oriented v1->v2, arrowed iff directed; indices are member positions, so nothing for outsiders), "
             "C15_arrowed_count, C15_complete. pyvis' behaviour (no second edge for an undirected add when the pair is joined; `directed` read at add time) is modelled from its source and validated by the "
             "correspondence on every call; an oracle checks the statement on the real network and that no vertex attribute set changes.",
             "pyvis itself is in the trusted base.", "DESIGN.md 3/C15"),
